@@ -53,8 +53,10 @@ type Program struct {
 	srcFuncsOnce sync.Once
 	srcFuncs     []*ssa.Function // first-party functions incl. anonymous ones
 
-	tables   map[*ssa.Global]map[string]constant.Value
-	tablesOK map[*ssa.Global]bool
+	tables       map[*ssa.Global]map[string]constant.Value
+	tablesOK     map[*ssa.Global]bool
+	presenceOnly map[*ssa.Global]map[string]bool
+	funcTables   map[*ssa.Global]map[string]*ssa.Function
 }
 
 func repoDir() string {
@@ -191,7 +193,13 @@ func (p *Program) Func(rel, name string) *ssa.Function {
 	if sp == nil {
 		return nil
 	}
-	return sp.Func(name)
+	if f := sp.Func(name); f != nil {
+		return f
+	}
+	if alias, ok := renamedAlias[sp.Pkg.Path()+"||"+name]; ok {
+		return sp.Func(alias)
+	}
+	return nil
 }
 
 // Method resolves a method by receiver type name and method name. The
@@ -219,6 +227,13 @@ func (p *Program) Method(rel, typeName, method string) *ssa.Function {
 	for i := 0; i < named.NumMethods(); i++ {
 		m := named.Method(i)
 		if m.Name() == method {
+			return p.SSA.FuncValue(m)
+		}
+	}
+	// renamed since the baseline?
+	for i := 0; i < named.NumMethods(); i++ {
+		m := named.Method(i)
+		if canonName(m) == method {
 			return p.SSA.FuncValue(m)
 		}
 	}
@@ -324,6 +339,46 @@ func (p *Program) InfoFor(fn *ssa.Function) *types.Info {
 	return nil
 }
 
+// funcOfExpr resolves a function-valued element of a package-level table literal: a
+// function literal (an anonymous function of the package initialiser) or the name of
+// a declared function.
+func (p *Program) funcOfExpr(pkg *packages.Package, g *ssa.Global, e ast.Expr) *ssa.Function {
+	switch x := ast.Unparen(e).(type) {
+	case *ast.FuncLit:
+		if init := g.Pkg.Func("init"); init != nil {
+			var found *ssa.Function
+			var visit func(f *ssa.Function)
+			visit = func(f *ssa.Function) {
+				for _, a := range f.AnonFuncs {
+					if a.Syntax() == ast.Node(x) {
+						found = a
+					}
+					visit(a)
+				}
+			}
+			visit(init)
+			return found
+		}
+	case *ast.Ident:
+		if fo, ok := pkg.TypesInfo.Uses[x].(*types.Func); ok {
+			return p.SSA.FuncValue(fo)
+		}
+	case *ast.SelectorExpr:
+		if fo, ok := pkg.TypesInfo.Uses[x.Sel].(*types.Func); ok {
+			return p.SSA.FuncValue(fo)
+		}
+	}
+	return nil
+}
+
+// funcTable: for a constant table (see constTable) whose values are functions, key -> function.
+func (p *Program) funcTable(g *ssa.Global) map[string]*ssa.Function {
+	if _, ok := p.constTable(g); !ok {
+		return nil
+	}
+	return p.funcTables[g]
+}
+
 // constTable returns the entries of a package-level map variable that is
 // initialised by a composite literal with constant keys (and constant or
 // empty-struct values) and is never stored to outside the package initialiser.
@@ -375,7 +430,7 @@ func (p *Program) constTable(g *ssa.Global) (map[string]constant.Value, bool) {
 			for _, sp := range gd.Specs {
 				vs := sp.(*ast.ValueSpec)
 				for i, id := range vs.Names {
-					if id.Name != g.Name() || i >= len(vs.Values) {
+					if pkg.TypesInfo.Defs[id] != g.Object() || i >= len(vs.Values) {
 						continue
 					}
 					cl, ok := vs.Values[i].(*ast.CompositeLit)
@@ -397,6 +452,18 @@ func (p *Program) constTable(g *ssa.Global) (map[string]constant.Value, bool) {
 							out[ktv.Value.ExactString()] = vtv.Value
 						} else {
 							out[ktv.Value.ExactString()] = constant.MakeBool(true) // presence only (struct{}{} sets)
+							if p.presenceOnly == nil {
+								p.presenceOnly = map[*ssa.Global]map[string]bool{}
+								p.funcTables = map[*ssa.Global]map[string]*ssa.Function{}
+							}
+							if p.presenceOnly[g] == nil {
+								p.presenceOnly[g] = map[string]bool{}
+								p.funcTables[g] = map[string]*ssa.Function{}
+							}
+							p.presenceOnly[g][ktv.Value.ExactString()] = true
+							if fn := p.funcOfExpr(pkg, g, kv.Value); fn != nil {
+								p.funcTables[g][ktv.Value.ExactString()] = fn
+							}
 						}
 					}
 					p.tables[g] = out
